@@ -174,13 +174,28 @@ func (db *DB) WithDynamicLimit(dynamicLimit DynamicLimit) (*DB, error) {
 	return &dbCopy, nil
 }
 
+// limitValuesEqual compares a value of a query with the value a limit requires.
+// It is == on interface values, except that values of types == cannot compare
+// ([]byte, for instance) are compared with reflect.DeepEqual instead of
+// panicking.
+func limitValuesEqual(a, b interface{}) bool {
+	ta, tb := reflect.TypeOf(a), reflect.TypeOf(b)
+	if ta != tb {
+		return false
+	}
+	if ta == nil || ta.Comparable() {
+		return a == b
+	}
+	return reflect.DeepEqual(a, b)
+}
+
 func (db *DB) checkFilterAgainstLimit(filter Filter, limit Filter) error {
 	for k, v := range limit {
 		filterV, ok := filter[k]
 		if !ok {
 			return fmt.Errorf("db requires %s = %v, but query does not filter on %s", k, v, k)
 		}
-		if filterV != v {
+		if !limitValuesEqual(filterV, v) {
 			return fmt.Errorf("db requires %s = %v, but query specifies %s = %v", k, v, k, filterV)
 		}
 	}
@@ -226,7 +241,7 @@ func (db *DB) checkColumnValuesAgainstLimit(columns []string, values []interface
 		if !ok {
 			return fmt.Errorf("db requires %s = %v, but query does not include %s", k, v, k)
 		}
-		if valuesV != v {
+		if !limitValuesEqual(valuesV, v) {
 			return fmt.Errorf("db requies %s = %v, but query has %s = %v", k, v, k, valuesV)
 		}
 	}
